@@ -161,6 +161,30 @@ def bucket_of(spec, v):
     return f"{s['k']}{':' + s['t'] if s['k'] == 'scalar' else ''}[{inner}]"[:120]
 
 
+def fixpoint_trace(T, v):
+    """what the three calls of the fixpoint law give: (m, unmarshal(T, m), marshal(that)) as snapshots / exception names"""
+    out = []
+    k, m = tl.call(tl.marshal, v, t=T)
+    out.append(snapshot(m) if k == "ok" else ("exc", tl.exc_name(m)))
+    if k == "ok":
+        k, u = tl.call(tl.unmarshal, T, m)
+        out.append(snapshot(u) if k == "ok" else ("exc", tl.exc_name(u)))
+        if k == "ok":
+            k, m2 = tl.call(tl.marshal, u, t=T)
+            out.append(snapshot(m2) if k == "ok" else ("exc", tl.exc_name(m2)))
+    return out
+
+
+def history_diag(T, v):
+    """The known failure of the fixpoint law is a matter of (type, value) alone: an earlier member captures the value. If the
+    same three calls give something else once every cache has been cleared, what was observed depended on the calls before
+    it - a different thing (and not the recorded finding)."""
+    warm = fixpoint_trace(T, v)
+    tl.clear_all()
+    cold = fixpoint_trace(T, v)
+    return None if warm == cold else "history-dependent"
+
+
 def check_value(p, v, col, via: str):
     T, spec, mat = p.T, p.spec, p.mat
     wide = U.has_kind(spec, "union")
@@ -209,8 +233,12 @@ def check_value(p, v, col, via: str):
         ku, u = tl.call(ur, m)
     amb = ambiguity(spec, v, mat) if (wide or U.has_kind(spec, "optional")) else None
     if ku == "exc" and amb and isinstance(u, ValueError):
-        col.violation("union-fixpoint", case(), f"T={mat.root_expr} m={m!r:.200}: unmarshal(T, m) raised {tl.exc_name(u)}: {u}",
-                      bucket="unmarshal-raises")
+        c = case()
+        hd = history_diag(T, v)
+        if hd:
+            c["diag"] = hd
+        col.violation("union-fixpoint", c, f"T={mat.root_expr} m={m!r:.200}: unmarshal(T, m) raised {tl.exc_name(u)}: {u}" + (f" [{hd}]" if hd else ""),
+                      bucket="unmarshal-raises" + (f"|{hd}" if hd else ""))
         return
     if ku == "exc":
         col.violation("unmarshal-succeeds", case(), f"unmarshal({mat.root_expr}, {m!r:.200}) raised {tl.exc_name(u)}: {u}",
@@ -230,8 +258,12 @@ def check_value(p, v, col, via: str):
     else:
         k2, m2 = tl.call(tl.marshal, u, t=T)
         if k2 == "exc" or snapshot(m2) != snapshot(m):
-            col.violation("union-fixpoint", case(), f"T={mat.root_expr} m={m!r:.200} but marshal(unmarshal(T, m)) = {m2!r:.200}",
-                          bucket=bucket_of(spec, v))
+            c = case()
+            hd = history_diag(T, v)
+            if hd:
+                c["diag"] = hd
+            col.violation("union-fixpoint", c, f"T={mat.root_expr} m={m!r:.200} but marshal(unmarshal(T, m)) = {m2!r:.200}" + (f" [{hd}]" if hd else ""),
+                          bucket=(hd + "|" if hd else "") + bucket_of(spec, v))
     if snapshot(v) != before:
         col.violation("input-unchanged", case(), "marshal modified its input", bucket=bucket_of(spec, v))
 
@@ -254,13 +286,15 @@ def plan(tier, seed):
     shards = [{"seed": seed * 1000 + k, "n": n, "depth": depth, "adversarial": k % 4 == 3} for k in range(16)]
     # one parameterised generic met twice in one annotation (nested first / bare first)
     shards += [{"seed": seed * 1000 + 70 + k, "n": n, "depth": 3, "repeated": True} for k in range(2)]
+    # unions of leaf types: values of one class that belong to different members, one after the other on the same routines
+    shards += [{"seed": seed * 1000 + 80 + k, "n": n, "depth": 2, "unions": True} for k in range(2)]
     return shards
 
 
 def run_shard(shard, col):
     adv = shard.get("adversarial", False)
     progs.drive_programs(col, seed=shard["seed"], n=shard["n"],
-                         spec_strategy=(U.repeated_generic_specs() if shard.get("repeated") else
+                         spec_strategy=(U.scalar_union_specs() if shard.get("unions") else U.repeated_generic_specs() if shard.get("repeated") else
                                         U.root_specs(max_depth=shard["depth"], mods=3 if adv else 2, adversarial=adv)),
                          per_program=per_program)
 
